@@ -259,6 +259,9 @@ def spec_ceil_division():
                         ground=exprs.ground_for(MZ), decode=decode)
 
 
+lemma_proofs = exprs.lemma_proofs
+
+
 def specs(tier='quick'):
     out = [spec_get_pyrange(True), spec_get_pyrange(False)]
     for ws in (True, False):
